@@ -158,10 +158,10 @@ func (c *tracingHTTP2Conn) handleFrame(frame http2.Frame, isRequest bool) {
 			c.receiveResponseLocked(stream, frame)
 		case isRequest:
 			// request trailers
-			stream.builder.trace.Request.Trailer = makeHeaders(frame)
+			stream.builder.setRequestTrailers(makeHeaders(frame))
 		default:
 			// response trailers
-			stream.builder.trace.Response.Trailer = makeHeaders(frame)
+			stream.builder.setResponseTrailers(makeHeaders(frame))
 		}
 		if frame.StreamEnded() {
 			c.closeStreamLocked(frame.StreamID, stream, isRequest, nil)
